@@ -318,8 +318,8 @@ static void write_replay(const char *path, const struct viol *v)
 	if (!f)
 		return;
 	fprintf(f, "scenario %s\n", scen->name);
-	fprintf(f, "budget %d,%d,%d,%d\n", S->cfg.budget[C_P], S->cfg.budget[C_D], S->cfg.budget[C_F],
-		S->cfg.budget[C_S]);
+	fprintf(f, "budget %d,%d,%d,%d,%d\n", S->cfg.budget[C_P], S->cfg.budget[C_D], S->cfg.budget[C_F],
+		S->cfg.budget[C_S], S->cfg.budget[C_Y]);
 	fprintf(f, "horizon %lu\n", S->cfg.horizon);
 	for (i = 0; i < S->cfg.nparams; i++)
 		fprintf(f, "param %s=%ld\n", S->cfg.pname[i], S->cfg.pval[i]);
@@ -359,9 +359,10 @@ static void add_param(struct config *c, const char *kv)
 
 static void parse_budget(struct config *c, const char *s)
 {
-	int p = 0, d = 0, f = 0, g = 0;
+	int p = 0, d = 0, f = 0, g = 0, y = 2;
 
-	sscanf(s, "%d,%d,%d,%d", &p, &d, &f, &g);
+	sscanf(s, "%d,%d,%d,%d,%d", &p, &d, &f, &g, &y);
+	c->budget[C_Y] = y;
 	c->budget[C_P] = p;
 	c->budget[C_D] = d;
 	c->budget[C_F] = f;
@@ -513,6 +514,7 @@ int main(int argc, char **argv)
 	}
 	S->cfg.horizon = 20000;
 	S->cfg.budget[C_P] = 2;
+	S->cfg.budget[C_Y] = 2;
 	for (i = 1; i < argc; i++) {
 		if (!strcmp(argv[i], "--list")) {
 			struct vrt_scenario *s;
@@ -558,6 +560,18 @@ int main(int argc, char **argv)
 	slots = mmap(NULL, sizeof(*slots) * (size_t)nworkers * 2, PROT_READ | PROT_WRITE,
 		     MAP_SHARED | MAP_ANONYMOUS | MAP_NORESERVE, -1, 0);
 	pids = calloc((size_t)nworkers, sizeof(*pids));
+
+	int real_budget[C_N], discovery = 1;
+
+	memcpy(real_budget, S->cfg.budget, sizeof(real_budget));
+	/* cheap discovery passes (P<=1, nothing else) find the racing plain accesses first, so the
+	 * expensive pass at the real budget rarely has to be repeated */
+	if (real_budget[C_P] + real_budget[C_D] + real_budget[C_F] + real_budget[C_S] > 1) {
+		memset(S->cfg.budget, 0, sizeof(S->cfg.budget));
+		S->cfg.budget[C_P] = real_budget[C_P] > 0;
+		S->cfg.tso = 0;
+	} else
+		discovery = 0;
 
 	for (pass = 1;; pass++) {
 		int grew = 0;
@@ -608,7 +622,15 @@ int main(int argc, char **argv)
 		if (verbose)
 			fprintf(stderr, "[explore] pass %d: %lu executions, %d newly promoted PCs (total %d)\n", pass,
 				S->execs, grew, S->cfg.npromo);
-		if (!grew || S->stop == 2)
+		if (S->stop == 2)
+			break;
+		if (!grew && discovery) {
+			discovery = 0;
+			memcpy(S->cfg.budget, real_budget, sizeof(real_budget));
+			S->cfg.tso = real_budget[C_D] > 0;
+			continue;
+		}
+		if (!grew)
 			break;
 		if (pass >= 12) {
 			S->internal = 1;
@@ -627,8 +649,8 @@ int main(int argc, char **argv)
 		char buf[2048];
 		int exhaustive = !S->stop && !S->overflow_dev && !S->overflow_stack && !S->trunc_rec && !S->internal;
 
-		fprintf(f, "{\n \"scenario\": \"%s\",\n \"budget\": [%d,%d,%d,%d],\n", scen->name, S->cfg.budget[C_P],
-			S->cfg.budget[C_D], S->cfg.budget[C_F], S->cfg.budget[C_S]);
+		fprintf(f, "{\n \"scenario\": \"%s\",\n \"budget\": [%d,%d,%d,%d,%d],\n", scen->name, S->cfg.budget[C_P],
+			S->cfg.budget[C_D], S->cfg.budget[C_F], S->cfg.budget[C_S], S->cfg.budget[C_Y]);
 		fprintf(f, " \"params\": {");
 		for (i = 0; i < S->cfg.nparams; i++)
 			fprintf(f, "%s\"%s\": %ld", i ? ", " : "", S->cfg.pname[i], S->cfg.pval[i]);
